@@ -95,14 +95,14 @@ pub fn run(ctx: &Ctx) -> usize {
     for (y, m) in [(1i64, 2i64), (1582, 9), (1582, 10), (1582, 11), (1583, 1), (1600, 2), (1900, 2), (2000, 2), (2023, 1), (2023, 12), (2024, 2), (2024, 6), (2024, 9), (9999, 11), (100, 2), (4, 2)] {
       v.push(y * 12 + m - 1);
     }
-    for _ in 0..560 {
+    for _ in 0..6000 {
       v.push(rng.range(1 * 12 + 1, 9999 * 12 + 10));
     }
     v
   } else {
     (13..=(9999 * 12 + 10)).collect()
   };
-  let lyears: Vec<i64> = if ctx.quick() { (0..30).map(|_| rng.range(31, 9989)).chain([2020i64, 2023, 1582].into_iter()).collect() } else { (0..600).map(|_| rng.range(31, 9989)).collect() };
+  let lyears: Vec<i64> = if ctx.quick() { (0..120).map(|_| rng.range(31, 9989)).chain([2020i64, 2023, 1582].into_iter()).collect() } else { (0..600).map(|_| rng.range(31, 9989)).collect() };
   let mp = crate::windows::deal(months, ctx.threads);
   let lp = crate::windows::deal(lyears, ctx.threads);
   let mut total = 0usize;
